@@ -94,7 +94,11 @@ def seq_copy(s):
 def contains(I, cont, x):
     if not I.spec:
         cont = I.force(cont)
+    if isinstance(cont, VEmptySet):
+        return z3.BoolVal(False)
     if isinstance(cont, VMap) or isinstance(cont, VSet):
+        if isinstance(x, VOpt) and not isinstance(cont.kt, TOpt) and x.t.inner == cont.kt:
+            return z3.And(z3.Not(x.is_none()), z3.Select(cont.dom, x.t.dt.val(x.e)))
         try:
             k = unwrap(x, cont.kt)
         except TypeError:
@@ -213,11 +217,17 @@ def slice_(I, o, lo, hi):
             if v is None or isinstance(v, VNone):
                 return dflt
             x = to_int(I.force(v) if not I.spec else v)
-            x = z3.If(x < 0, x + n, x)
-            return z3.If(x < 0, 0, z3.If(x > n, n, x))
+            if not I.path.known(x >= 0):
+                x = z3.If(x < 0, x + n, x)
+                x = z3.If(x < 0, 0, x)
+            if I.path.known(x <= n):
+                return x
+            return z3.If(x > n, n, x)
         a = clampi(lo, z3.IntVal(0))
         b = clampi(hi, n)
-        ln = z3.If(b > a, b - a, 0)
+        ln = (b - a) if I.path.known(b >= a) else z3.If(b > a, b - a, 0)
+        if z3.is_int_value(z3.simplify(a)) and z3.simplify(a).as_long() == 0:
+            return VSeq(o.arr, z3.simplify(ln), o.et, "list")
         i = z3.Int("sl_i")
         arr = z3.Lambda([i], z3.Select(o.arr, i + a))
         return VSeq(arr, z3.simplify(ln), o.et, "list")
@@ -386,6 +396,8 @@ def get_attribute(I, o, name, default=_NOCONST):
         o = I.force(o)
     elif isinstance(o, VOpt):
         o = o.val()
+    elif isinstance(o, VOptObj):
+        o = o.obj
     if isinstance(o, VObj):
         I.ver.on_field_read(I, o, name)
         if name in o.fields:
@@ -462,6 +474,18 @@ def call(I, f, args, kwargs, node=None):
     if not I.spec:
         f = I.force(f)
     if isinstance(f, VFunc):
+        if f.kind == "ast" and getattr(f, "qual", None) in I.ver.reg.opaques and \
+                not (I.ver.cur is not None and I.ver.cur.key == f.qual and not I.fn_stack[1:]):
+            uf = I.ver.spec_name(I.ver.reg.opaques[f.qual])
+            a = ([f.selfv] if f.selfv is not None else []) + list(args)
+            if uf.kind == "builtin":
+                return uf.impl(I, a, kwargs)
+            saved = I.spec
+            I.spec = True
+            try:
+                return I.call_ast(uf, a, kwargs)
+            finally:
+                I.spec = saved
         if f.kind in ("ast", "lambda"):
             c = I.ver.contract_for_call(f, I)
             if c is not None:
@@ -520,6 +544,15 @@ def call_contract(I, c, f, args, kwargs):
     if f.selfv is not None:
         a = [f.selfv] + a
     I.bind_params(f.node, a, dict(kwargs), env, Env(None, f.module))
+    for pn, ts in c.types.items():
+        if pn in env.vars and isinstance(ts, str) and not ts.startswith("="):
+            try:
+                env.vars[pn] = I.coerce_value(env.vars[pn], I.ver.types.parse(ts))
+            except KeyError:
+                pass
+    if I.spec:
+        # a pure callee used inside a specification / comprehension: its result expression
+        return I.eval_spec_value(c.pure_result, env)
     I.ver.apply_param_types(I, c, env)
     caller = I.cur_obl_prefix()
     for nm, src in c.requires:
@@ -543,8 +576,11 @@ def call_contract(I, c, f, args, kwargs):
         if c.returns is not None:
             res = I.fresh_value(I.ver.types.parse(c.returns) if isinstance(c.returns, str) else c.returns,
                                 "ret_" + c.short.replace(".", "_"))
+        from .verifier import NOEXPORT
         for nm, src in c.ensures:
-            I.path.assume(I.eval_spec(src, env, extra={"result": res}))
+            if (c.short, nm) in NOEXPORT:
+                continue
+            I.path.assume(I.eval_spec(src, env, extra={"result": res}, assume=True))
         for st in c.effects:
             I.exec_ghost(st, env, extra={"result": res})
     finally:
@@ -688,23 +724,41 @@ def bi_int(I, args, kw):
     if isinstance(v, VReal):
         return VInt(real_to_int_trunc(v.e))
     if isinstance(v, VStr):
-        # int(str): defined iff the string is a (non-negative) decimal numeral; other accepted
-        # spellings (sign, whitespace, underscores) are conservatively treated as *possibly* raising
-        n = z3.StrToInt(v.e)
+        # int(str): uninterpreted predicate/function pair (int_parses, int_value) that agrees with the decimal
+        # reading on plain digit strings; other accepted spellings (sign, blanks, underscores) stay abstract
+        ok, val = int_parse_terms(I, v.e)
         if I.spec:
-            return VInt(n)
-        ok = n >= 0
+            return VInt(val)
         if I.path.branch(ok):
-            return VInt(n)
-        amb = I.path.fresh("int_parse_other", z3.BoolSort())
-        if I.path.branch(amb):
-            return VInt(I.path.fresh("int_parsed", z3.IntSort()))
+            return VInt(val)
         I.raise_exc("ValueError", "invalid literal for int()")
     if isinstance(v, VNone):
         I.raise_exc("TypeError", "int() argument must be a string or a number, not 'NoneType'")
     if I.spec:
         raise Unsupported("int of %s" % type(v).__name__)
     I.raise_exc("TypeError", "int() argument")
+
+
+def int_parse_terms(I, e):
+    ip = z3.Function("int_parses", z3.StringSort(), z3.BoolSort())
+    iv = z3.Function("int_value", z3.StringSort(), z3.IntSort())
+    if not getattr(I.path, "_ip_axiom", False):
+        I.path._ip_axiom = True
+        x = z3.String("ip_x")
+        I.path.assume(z3.ForAll([x], z3.Implies(z3.StrToInt(x) >= 0, z3.And(ip(x), iv(x) == z3.StrToInt(x))),
+                                patterns=[ip(x), iv(x)]))
+        I.path.assume(z3.ForAll([x], z3.Implies(z3.Length(x) == 0, z3.Not(ip(x))), patterns=[ip(x)]))
+        I.ver.note_assumption("int(str): int_parses/int_value are uninterpreted except on plain ASCII digit strings "
+                              "(where they are the decimal value) and the empty string (does not parse)")
+    return ip(e), iv(e)
+
+
+def sp_int_parses(I, args, kw):
+    return VBool(int_parse_terms(I, args[0].e)[0])
+
+
+def sp_int_value(I, args, kw):
+    return VInt(int_parse_terms(I, args[0].e)[1])
 
 
 def bi_float(I, args, kw):
@@ -1179,7 +1233,7 @@ def gh_lemma_pigeonhole(I, args, kw):
 
 
 BUILTIN_FUNCS = {
-    "lemma_pigeonhole": gh_lemma_pigeonhole,
+    "lemma_pigeonhole": gh_lemma_pigeonhole, "int_parses": sp_int_parses, "int_value": sp_int_value,
     "len": bi_len, "int": bi_int, "float": bi_float, "bool": bi_bool, "str": bi_str, "abs": bi_abs,
     "min": bi_min, "max": bi_max, "isinstance": bi_isinstance, "hasattr": bi_hasattr, "getattr": bi_getattr,
     "setattr": bi_setattr, "callable": bi_callable, "list": bi_list, "tuple": bi_tuple, "dict": bi_dict,
@@ -1806,7 +1860,8 @@ def exec_for(I, s, env):
         n, item = proto[1], proto[2]
         if spec is None:
             return _unroll_for(I, s, env, n, item)
-        return _for_seq_inv(I, s, env, spec, n, item)
+        seqv = VSeq(it.arr, it.n, it.et, "list") if isinstance(it, VSeq) else None
+        return _for_seq_inv(I, s, env, spec, n, item, seqv)
     # iteration over an unordered finite set / map domain
     m = proto[1]
     kind = proto[2]
@@ -1834,12 +1889,14 @@ def _unroll_for(I, s, env, n, item):
             return
 
 
-def _for_seq_inv(I, s, env, spec, n, item):
+def _for_seq_inv(I, s, env, spec, n, item, seqv=None):
     name = spec["name"]
     iname = spec.get("index", "_i")
     snap = I.snapshot_env(env)
     I.loop_snap.append(snap)
     try:
+        if seqv is not None:
+            env.set(spec.get("iter", "_iter"), seqv)
         env.set(iname, VInt(0))
         I.check_invariants(spec, env, name + "/inv-entry")
         I.havoc_loop_targets(s, env, spec)
